@@ -4,6 +4,7 @@ import Genshi.Model.OutputPipeline
 import Genshi.Model.OutputMarkupAttr
 import Genshi.Model.OutputFlattenCache
 import Genshi.Model.OutputFlatPipeline
+import Genshi.Model.OutputPipelineFull
 namespace Driver.C09
 open Genshi Genshi.Output Genshi.Sexp
 
@@ -123,6 +124,18 @@ def handle : List Sexp → Option Sexp
         match render m cfg s with
         | some out => pure (.list [.atom "ok", .str out])
         | none => pure (.atom "unmodelled")
+  -- renderfull <method> <strip> <cache> <drop_xml_decl> <doctype> <stream>: the whole serializer with the full
+  -- NamespaceFlattener (never `unmodelled` for namespace reasons)
+  | [.atom "renderfull", m, strip, cache, dropd, dt, s] => do
+      let m ← method? m
+      let strip ← strip.toBool?; let cache ← cache.toBool?; let dropd ← dropd.toBool?
+      let s ← streamOfSexp? s
+      match doctype? dt with
+      | none => pure (.atom "unmodelled")
+      | some dt =>
+        let cfg : Cfg := { strip := strip, cache := cache, doctype := dt, dropXmlDecl := dropd }
+        if !((filteredFull m cfg s).all feOk) then pure (.atom "unmodelled") else
+        pure (.list [.atom "ok", .str (renderFull m cfg s)])
   -- spec <method> <drop_xml_decl> <stream>: serSpec over the filtered stream (strip off, no doctype)
   | [.atom "spec", m, dropd, s] => do
       let m ← method? m
